@@ -71,6 +71,18 @@ func (c *c07) Cases(tier string, seed int64) []core.Case {
 	cs = append(cs, core.MkCase("singular-search", c07Params{Mode: "singular-search", Seed: r.Int63(), Trials: map[string]int{"quick": 300, "thorough": 5000}[tier]}))
 	cs = append(cs, core.MkCase("limits", c07Params{Mode: "limits", Seed: r.Int63()}))
 	cs = append(cs, core.MkCase("zero-pivot-constructed", c07Params{Mode: "zero-pivot", Seed: r.Int63()}))
+	// The GOARCH=386 build of the worker (32-bit int, portable kernels): the
+	// documented limits, two exhaustive grids and a few large random codes.
+	for _, cc := range []core.Case{
+		core.MkCase("386:limits", c07Params{Mode: "limits", Seed: r.Int63()}),
+		core.MkCase("386:exh-vandermonde-d3-p3", c07Params{Mode: "exhaustive", Coder: "vandermonde", D: 3, P: 3, Seed: r.Int63(), Lens: lens, Gs: gs}),
+		core.MkCase("386:exh-cauchy-d3-p3", c07Params{Mode: "exhaustive", Coder: "cauchy", D: 3, P: 3, Seed: r.Int63(), Lens: lens, Gs: gs}),
+		core.MkCase("386:rnd-vandermonde-d200-p50", c07Params{Mode: "random", Coder: "vandermonde", D: 200, P: 50, Seed: r.Int63(), Trials: 4}),
+		core.MkCase("386:rnd-cauchy-d200-p50", c07Params{Mode: "random", Coder: "cauchy", D: 200, P: 50, Seed: r.Int63(), Trials: 4}),
+	} {
+		cc.Arch386 = true
+		cs = append(cs, cc)
+	}
 	return cs
 }
 
